@@ -424,7 +424,15 @@ def cmp(op, impl_out, model_out):
         return True
     if m[0] == "UNHANDLED":
         return False
-    if m[0] == "ERR" and m[1].startswith("inrun:"):
+    tx = (R.parse_op(op).get("T") or "-").split(":")
+    tx = tx[2] if len(tx) > 2 else "-"
+    if tx not in ("-", "time", "leadtime") and tx in AXES and not (m[0] == "ERR" and not m[1].startswith(("stub:", "inrun:"))):
+        # `-Tx <known axis other than time / leadtime>` passes the argument loop (Model/Dispatch.lean, tCheck) and is
+        # refused by Data.preaggregate with its error message as soon as the FIRST array is loaded — which can be
+        # earlier than the stop the dispatch model predicts (e.g. the default thresholds of `-m freq` are computed
+        # before "This output does not provide text output"); the run must end in an error message either way
+        if st.startswith("exit1:") and not st.startswith("exit1-nomessage") and "cls" not in i:
+            return True
         # an error guard at the start of the selected method: the output object was set up as predicted and the run
         # ended in an error message
         if len(m) < 7 or "cls" not in i:
